@@ -38,7 +38,7 @@ def enc_case(case):
 # ------------------------------------------------------------------ generation
 class HGen:
     def __init__(self, rng, max_depth=3, max_children=3, max_top=3, p_parallel=0.3, p_final_compound=0.0,
-                 single_scope=True, max_events=3):
+                 single_scope=True, max_events=3, p_subset=0.0):
         self.r = rng
         self.cb = 0
         self.name = 0
@@ -47,6 +47,7 @@ class HGen:
         self.p_final_compound = p_final_compound
         self.single_scope = single_scope
         self.max_events = max_events
+        self.p_subset = p_subset      # parallel states whose initial list names a strict subset of the children
 
     def cbs(self, hi=2, p_empty=0.55):
         if self.r.random() < p_empty:
@@ -68,7 +69,10 @@ class HGen:
         initial = []
         if children:
             x = r.random()
-            if len(children) >= 2 and x < self.p_parallel:
+            if len(children) >= 3 and r.random() < self.p_subset:
+                initial = [c['name'] for c in r.sample(children, r.randint(2, len(children) - 1))]
+                initial.sort(key=lambda n: [c['name'] for c in children].index(n))
+            elif len(children) >= 2 and x < self.p_parallel:
                 initial = [c['name'] for c in children]
             elif x < 0.92:
                 initial = [r.choice(children)['name']]
